@@ -156,6 +156,7 @@ def run_check(P, pid, tier, seed, t0, a):
             cases.append(core.gen_random(r2, op))
     seeds = (1, 0x5eed5eed) if tier == "quick" else (1, 0x5eed5eed, seed * 7919 + 13)
     dres = core.differential(cases, seeds=seeds)
+    dres.branches = core.branch_histogram(cases)
     log(f"[{pid}] D: {dres.total} evaluations, {len(dres.lines)} distinct, "
         f"{len(dres.disagreements)} disagreements, outcomes={dres.outcomes}")
 
@@ -278,6 +279,7 @@ def write_evidence(P, pid, tier, seed, t0, thms, dres, ores, tres, nviol, notes)
             "outcomes": dres.outcomes,
             "families": dres.families,
             "disagreements": len(dres.disagreements),
+            "branches": getattr(dres, "branches", {}),
             "oracle_clause_evaluations": ores["total"] if ores else 0,
             "oracle_skipped": ores["skipped"] if ores else 0,
             "oracle_failures": len(ores["fails"]) if ores else 0,
